@@ -471,8 +471,9 @@ fn c09_case(seed: u64, idx: u64, md: &mut Model, rep: &mut Report) {
         match m.strip_prefix("ok ") {
             Some(h) => { let b = unhex(h); if structural(md, &b) != s0 { disag.push(json!({"kind": "reenc update", "model": m, "update": hex(u), "foreign": foreign})); }
                          // and the implementation accepts the model's encoding with the same effect
-                         let d3 = Replica::new(9, DocCfg::default());
-                         if d3.apply_v1(&b).is_err() || internal_dump(&store_dump(&d3.doc)) != internal_dump(&store_dump(&d1.doc)) { disag.push(json!({"kind": "model-encoded update has a different effect", "update": hex(u), "model_encoding": h})); } }
+                         // (same outcome: an update whose blocks name a parent that is no shared type is refused either way)
+                         let (d3, d1b) = (Replica::new(9, DocCfg::default()), Replica::new(9, DocCfg::default()));
+                         if d3.apply_v1(&b).is_err() != d1b.apply_v1(u).is_err() || internal_dump(&store_dump(&d3.doc)) != internal_dump(&store_dump(&d1b.doc)) { disag.push(json!({"kind": "model-encoded update has a different effect", "update": hex(u), "model_encoding": h})); } }
             None => disag.push(json!({"kind": "reenc update", "model": m, "update": hex(u), "foreign": foreign})),
         }
     }
@@ -723,11 +724,15 @@ fn c10_run(tier: &str, seed: u64, wi: usize, nw: usize) -> Report {
                                    // 23 bytes of lib0 v2 whose run-length columns stand for 1 000 000 GC blocks (Codec/V2Proofs.v, v2_expansion, scaled up)
                                    ("update_v2", vec![0, 0, 1, 1, 0, 0, 1, 0, 1, 0, 0, 0, 4, 65, 190, 132, 61, 1, 192, 132, 61, 0, 0]),
                                    ("svfrom_v2", vec![0, 0, 1, 1, 0, 0, 1, 0, 1, 0, 0, 0, 4, 65, 190, 132, 61, 1, 192, 132, 61, 0, 0]),
+                                   // 300 000 consecutive Skip blocks (600 kB): the block iterator of merge_updates used to recurse once per skipped block
+                                   ("merge_v1", { let mut u = vec![1u8]; u.write_var(300_000u32); u.write_var(5u64); u.write_var(0u32); for _ in 0..300_000 { u.push(10); u.push(1); } u.push(0); u }),
+                                   ("svfrom_v1", { let mut u = vec![1u8]; u.write_var(300_000u32); u.write_var(5u64); u.write_var(0u32); for _ in 0..300_000 { u.push(10); u.push(1); } u.push(0); u }),
                                    // Codec/V2Proofs.v, rle_update_witness: an Rle run length of 2^31-1 (the run counter is an i32)
                                    ("update_v2", vec![0, 0, 1, 1, 0, 0, 6, 0, 255, 255, 255, 255, 7, 1, 0, 0, 0, 1, 1, 1, 1, 0, 0]),
                                    ("svfrom_v2", vec![0, 0, 1, 1, 0, 0, 6, 0, 255, 255, 255, 255, 7, 1, 0, 0, 0, 1, 1, 1, 1, 0, 0])] {
                 rep.evaluations += 1; rep.count("resource_inputs");
-                let req = format!("{} {} _", entry, hex(&input));
+                // (merge takes a second update: the empty one)
+                let req = format!("{} {} {}", entry, hex(&input), if entry == "merge_v1" { "0000" } else { "_" });
                 let ctx = json!({"entry": entry, "input_len": input.len(), "input_prefix": hex(&input[..input.len().min(24)])});
                 match wk.ask(&req, 8000) {
                     Err(kind) => { rep.fail(json!({"property": "C10", "class": format!("worker-{}@{}", kind.split('(').next().unwrap_or("died"), entry), "detail": kind, "ctx": ctx})); wk = Worker::spawn(); }
